@@ -106,8 +106,21 @@ def build_branch(b, kind):
     raise ValueError(kind)
 
 
-def run_split(brs, n, bs, copy_buf=True):
+def hreset(el):
+    """Harness-side reset of a tagged branch element between two runs of the same Split object."""
+    if isinstance(el, TFill):
+        el.filled, el.nf = [], 0
+
+
+def run_split(brs, n, bs, copy_buf=True, runs=1):
+    """Run the real Split; with runs > 1 the SAME Split object is run again on the same flow (the
+    tagged elements are reset by the harness in between) and the list of all outputs is returned."""
     import lena.core
     els = [build_branch(i + 1, k) for i, k in enumerate(brs)]
     s = lena.core.Split(els, bufsize=None if bs == NONE else bs, copy_buf=copy_buf)
-    return [untag(v) for v in s.run(iter(range(n)))]
+    outs = []
+    for _ in range(runs):
+        outs.append([untag(v) for v in s.run(iter(range(n)))])
+        for el in els:
+            hreset(el)
+    return outs[0] if runs == 1 else outs
